@@ -1303,6 +1303,40 @@ func c08RefusedCreateReleases(w *World, r *Report, rule string) {
 			}
 		}
 	}
+	// a function that only forwards to a fresh allocator (returns its results as they are) is one too
+	for changed := true; changed; {
+		changed = false
+		for _, fn := range w.ModFns {
+			if !inFatPkg(w, fn) || fresh[fn] {
+				continue
+			}
+			for _, ret := range returnsOf(fn) {
+				// `return g(...)`: every result of the return is the corresponding result of one call
+				var c *ssa.Call
+				pure := len(ret.Results) > 0
+				for i, rv := range ret.Results {
+					var ci *ssa.Call
+					switch x := rv.(type) {
+					case *ssa.Call:
+						ci = x
+					case *ssa.Extract:
+						if x.Index == i {
+							ci, _ = x.Tuple.(*ssa.Call)
+						}
+					}
+					if ci == nil || (c != nil && ci != c) {
+						pure = false
+						break
+					}
+					c = ci
+				}
+				if pure && c != nil && fresh[c.Call.StaticCallee()] && !fresh[fn] {
+					fresh[fn] = true
+					changed = true
+				}
+			}
+		}
+	}
 	if as == nil || len(fresh) == 0 {
 		r.Undecided(rule, "filesystem/fat12", "fresh allocations", "filesystem/fat12", "no function allocates a fresh chain with allocateSpace(_, 0)")
 		return
